@@ -679,6 +679,199 @@ theorem register_appends (st : RegState τ) (r : Reg τ) (sk : Bool) (h : sk = f
 
 end Cache
 
+/-! ## The code of the current source: loop body, short-cut guard, graph weights, registration -/
+section Source
+variable {τ : Type}
+
+/-- The historical loop body is `acceptOf asWrittenTree`. -/
+theorem acceptAsWritten_eq_acceptOf (via avoid p : List Nat) :
+    acceptAsWritten via avoid p = acceptOf asWrittenTree via avoid p := by
+  unfold acceptAsWritten acceptOf asWrittenTree
+  cases (!via.isEmpty) <;> cases (via.all fun x => p.contains x) <;> cases (!avoid.isEmpty) <;>
+    cases (avoid.any fun x => p.contains x) <;> rfl
+
+/-- A decision function that agrees with "all `via`, no `avoid`" on every combination of the four
+facts that can occur inside the loop yields the repaired loop body.  (Inside the loop `via` or `avoid`
+is given; an empty `via` is vacuously all on the path; an empty `avoid` has nothing on the path.) -/
+theorem acceptOf_eq_repaired (f : Bool → Bool → Bool → Bool → Bool)
+    (hf : ∀ vne allv ane anya : Bool, (vne = true ∨ ane = true) → (vne = false → allv = true) →
+      (ane = false → anya = false) → f vne allv ane anya = (allv && !anya))
+    (via avoid p : List Nat) (hne : via ≠ [] ∨ avoid ≠ []) :
+    acceptOf f via avoid p = acceptRepaired via avoid p := by
+  unfold acceptOf acceptRepaired
+  apply hf
+  · rcases hne with h | h
+    · left; cases via with
+      | nil => exact absurd rfl h
+      | cons _ _ => rfl
+    · right; cases avoid with
+      | nil => exact absurd rfl h
+      | cons _ _ => rfl
+  · intro h
+    cases via with
+    | nil => rfl
+    | cons _ _ => simp at h
+  · intro h
+    cases avoid with
+    | nil => rfl
+    | cons _ _ => simp at h
+
+theorem searchLoop_congr {a b : List Nat → Bool} (h : ∀ p, a p = b p) (enum : List (List Nat)) :
+    searchLoop a enum = searchLoop b enum := by
+  have : a = b := funext h
+  rw [this]
+
+/-- `findPathG` with the guard `not via and not avoid` and a loop body that agrees with `accept'`
+whenever the loop runs is `findPath accept'`. -/
+theorem findPathG_eq (shortcut : Bool → Bool → Bool) (accept accept' : List Nat → List Nat → List Nat → Bool)
+    (hs : ∀ v a, shortcut v a = (!v && !a))
+    (ha : ∀ via avoid p, (via ≠ [] ∨ avoid ≠ []) → accept via avoid p = accept' via avoid p)
+    (G : List (GEdge τ)) (s t : Nat) (via avoid : List Nat) (sh : Option (List Nat)) (enum : List (List Nat)) :
+    findPathG shortcut accept G s t via avoid sh enum = findPath accept' G s t via avoid sh enum := by
+  unfold findPathG findPath
+  rw [hs]
+  simp only [Bool.not_not]
+  split; · rfl
+  split; · rfl
+  split; · rfl
+  split; · rfl
+  split
+  · rfl
+  · rename_i hva
+    apply searchLoop_congr
+    intro p
+    apply ha
+    simp only [Bool.and_eq_true, List.isEmpty_iff, not_and] at hva
+    by_cases hv : via = []
+    · exact Or.inr (hva hv)
+    · exact Or.inl hv
+
+theorem bridgingGraphOf_eq (fw : Rat → Rat) (rw' : Rat → Rat → Rat) (hfw : ∀ w, fw w = w)
+    (hrw : ∀ w k, rw' w k = w * k) (neg : τ → τ) (regs : List (Reg τ)) (recip : Option Rat) :
+    bridgingGraphOf fw rw' neg regs recip = bridgingGraph neg regs recip := by
+  have e1 : fw = fun w => w := funext hfw
+  have e2 : rw' = fun w k => w * k := funext fun w => funext fun k => hrw w k
+  subst e1 e2
+  rfl
+
+theorem registerOf_eq [DecidableEq τ] (cond : Bool → Bool → Bool) (hc : ∀ s p, cond s p = (!s || !p))
+    (st : RegState τ) (r : Reg τ) (sk : Bool) : registerOf cond true st r sk = register st r sk := by
+  unfold registerOf register
+  rw [hc]
+  rfl
+
+theorem negSeqOf_eq (neg : τ → τ) (ts : List τ) : negSeqOf true true neg ts = negSeq neg ts := rfl
+
+end Source
+
+/-! ## Merging of appendable members keeps the composition -/
+section Merge
+variable {τ : Type} (g : TGroup τ)
+
+/-- `a.append(b)` succeeding means: `a` now is "first `a`, then `b`". -/
+def MergeSound (merge : τ → τ → Option τ) : Prop := ∀ a b c, merge a b = some c → c = g.mul a b
+
+theorem prod_singleton (t : τ) : prod g [t] = t := by
+  rw [prod_cons, prod_nil, g.mul_one]
+
+theorem prod_seqAppend (merge : τ → τ → Option τ) (hm : MergeSound g merge) (ts : List τ) (t : τ) :
+    prod g (seqAppend merge ts t) = g.mul (prod g ts) t := by
+  unfold seqAppend
+  cases hl : ts.getLast? with
+  | none =>
+    have : ts = [] := List.getLast?_eq_none_iff.mp hl
+    subst this
+    simp only
+    rw [prod_singleton, prod_nil, g.one_mul]
+  | some l =>
+    have hts : ts.dropLast ++ [l] = ts := by
+      have hne : ts ≠ [] := by intro h; subst h; simp at hl
+      have := List.dropLast_concat_getLast hne
+      rw [List.getLast?_eq_some_getLast hne] at hl
+      simp only [Option.some.injEq] at hl
+      rw [hl] at this; exact this
+    simp only
+    cases hmg : merge l t with
+    | some c =>
+      simp only
+      rw [hm l t c hmg, prod_append, prod_singleton]
+      conv => rhs; rw [← hts, prod_append, prod_singleton]
+      rw [g.mul_assoc]
+    | none =>
+      simp only
+      rw [prod_append, prod_singleton]
+
+theorem prod_foldl_seqAppend (merge : τ → τ → Option τ) (hm : MergeSound g merge) (acc ts : List τ) :
+    prod g (ts.foldl (seqAppend merge) acc) = g.mul (prod g acc) (prod g ts) := by
+  induction ts generalizing acc with
+  | nil => simp [prod_nil, g.mul_one]
+  | cons t ts ih =>
+    rw [List.foldl_cons, ih, prod_seqAppend g merge hm, prod_cons, g.mul_assoc]
+
+/-- `TransformSequence(*members)` composes to the same transform as the plain list of members,
+however many of them were merged into their predecessor. -/
+theorem prod_seqBuild (merge : τ → τ → Option τ) (hm : MergeSound g merge) (ts : List τ) :
+    prod g (seqBuild merge ts) = prod g ts := by
+  unfold seqBuild
+  rw [prod_foldl_seqAppend g merge hm, prod_nil, g.one_mul]
+
+end Merge
+
+/-! ## Sequences of sequences; negation of a sequence with non-invertible members -/
+section Nested
+variable {τ : Type} (g : TGroup τ)
+
+theorem prod_seqBuildItems_aux (merge : τ → τ → Option τ) (hm : MergeSound g merge) (acc : List τ)
+    (items : List (Item τ)) :
+    prod g (items.foldl (seqAppendItem merge) acc) = g.mul (prod g acc) (prod g (items.flatMap Item.members)) := by
+  induction items generalizing acc with
+  | nil => simp [prod_nil, g.mul_one]
+  | cons it items ih =>
+    rw [List.foldl_cons, ih, List.flatMap_cons, prod_append]
+    unfold seqAppendItem
+    rw [prod_foldl_seqAppend g merge hm, g.mul_assoc]
+
+/-- A sequence built from transforms AND sequences composes to the flattened list of members. -/
+theorem prod_seqBuildItems (merge : τ → τ → Option τ) (hm : MergeSound g merge) (items : List (Item τ)) :
+    prod g (seqBuildItems merge items) = prod g (items.flatMap Item.members) := by
+  unfold seqBuildItems
+  rw [prod_seqBuildItems_aux g merge hm, prod_nil, g.one_mul]
+
+omit g in
+theorem optAll_isSome_iff {α} (l : List (Option α)) : (optAll l).isSome = true ↔ ∀ o ∈ l, o.isSome = true := by
+  induction l with
+  | nil => simp [optAll]
+  | cons o l ih =>
+    cases o with
+    | none => simp [optAll]
+    | some a => simp [optAll, ih]
+
+omit g in
+theorem optAll_map_some {α β} (f : α → β) (l : List α) : optAll (l.map fun a => some (f a)) = some (l.map f) := by
+  induction l with
+  | nil => rfl
+  | cons a l ih => simp [optAll, ih]
+
+omit g in
+/-- `-seq` is defined exactly when every member can be negated. -/
+theorem negSeq?_isSome_iff (neg? : τ → Option τ) (ts : List τ) :
+    (negSeq? neg? ts).isSome = true ↔ ∀ t ∈ ts, (neg? t).isSome = true := by
+  unfold negSeq?
+  rw [optAll_isSome_iff]
+  simp only [List.mem_map, List.mem_reverse]
+  constructor
+  · intro h t ht; exact h _ ⟨t, ht, rfl⟩
+  · rintro h o ⟨t, ht, rfl⟩; exact h t ht
+
+omit g in
+/-- … and then it is the model's `negSeq`. -/
+theorem negSeq?_eq_negSeq (neg : τ → τ) (ts : List τ) :
+    negSeq? (fun t => some (neg t)) ts = some (negSeq neg ts) := by
+  unfold negSeq? negSeq
+  exact optAll_map_some neg ts.reverse
+
+end Nested
+
 /-! ## Invertible affine maps form a `TGroup` -/
 section AffineInstance
 open Navis.Affine
